@@ -249,6 +249,12 @@ func Raw(sp *spec.Spec, sv *spec.Service, m *spec.Method, tree any, route int) (
 		}
 		req.Body = b
 		req.Header["Content-Type"] = []string{"application/json"}
+		if h.Multipart {
+			// the lab's multipart codec: the JSON of the body attributes is the content of the one part (multipart.go)
+			var ct string
+			req.Body, ct = MultipartBody(b)
+			req.Header["Content-Type"] = []string{ct}
+		}
 	}
 	req.URL = "http://lab.local" + path
 	if len(q) > 0 {
